@@ -126,6 +126,17 @@ CHECKS = {
   note="Partial. Trusted: Coq kernel, vm_compute, regex translator + engine fidelity, C05 generator. Binding is differential only.",
   technique="Rocq proof (scan = set of whole-identifier occurrences, both directions; disjointness) over a pattern regenerated by a translator + end-to-end differential incl. applying renames",
   design="4/C06"),
+ "C13": dict(
+  text="Coq theorems (C13/Props.v): the line list is the same for LF, CRLF and CR renderings of any lines (splitlines o join, all line lists without "
+       "breaks); inserting blank lines shifts every later line by exactly the number inserted and leaves earlier ones; appending an ordinary comment to a "
+       "statement without literals does not change the text the statement readers see; every statement pattern regenerated from the source either "
+       "carries the IGNORECASE flag or contains no cased letter, and for every pattern (any regex of the fragment) matching, searching and finditer "
+       "are invariant under case variants of the subject when ignore-case is on. A refutation witness: the comment/`;` scanner mishandles a line with "
+       "both quote kinds (known finding). Continuation gathering and `;` splitting are exercised by a metamorphic oracle: generated programs x random "
+       "compositions of the listed transformations, dumps equal modulo the line map.",
+  note="Partial. Trusted: Coq kernel, vm_compute, regex translator + engine fidelity, splitlines correspondence. Continuation/`;` handling is metamorphic-differential only.",
+  technique="Rocq proof (terminator independence, blank-line shift, comment cut, case invariance of all generated statement patterns) + metamorphic re-layout differential against the server",
+  design="4/C13"),
 }
 NOT_YET = "not yet built in this round; see DESIGN.md section 8 (build order)"
 
